@@ -371,7 +371,9 @@ def r3(ctx):
                     old_before = astmt.lineno < s.stmt.lineno
                 differs = any((not p_) and t in ("%s == %s" % (newgt, OLD), "%s == %s" % (OLD, newgt)) for t, p_ in ga)
                 ne = _c(gc.args[4])
-                inmap = isinstance(ne, ast.Subscript) and (("%s in %s" % (u(ne.slice), u(ne.value)), True) in ga or ("%s is None" % newgt, False) in ga or ("None is %s" % newgt, False) in ga)
+                while isinstance(ne, ast.Attribute):
+                    ne = ne.value  # a field of the record kept in the table
+                inmap = isinstance(ne, ast.Subscript) and (("%s in %s" % (u(ne.slice), u(ne.value)), True) in ga or ("%s is None" % u(ne), False) in ga or ("None is %s" % u(ne), False) in ga)
                 same_sample = u(gc.args[0]) == loopvar and callv == "record.samples[%s]" % loopvar
                 ok = ("%s.as_vector()" % newgt) in stored and oldgt == OLD and old_before and differs and inmap and same_sample and u(gc.args[1]) == "chromosome"
                 detail = " (old=%s new=%s stored=%s%s%s)" % (oldgt, newgt, stored, "" if differs else "; no `new != old` guard", "" if inmap else "; not guarded by membership in the table")
